@@ -11,6 +11,8 @@ mod lock;
 mod misc;
 mod model;
 mod pl;
+#[cfg(feature = "hook-h6")]
+mod pw;
 mod rbtrace;
 mod scen;
 mod sys;
@@ -288,6 +290,8 @@ fn main() {
         Some("bb") => bb::cmd_bb(&kv),
         #[cfg(feature = "hook-h5")]
         Some("lb") => lb::cmd_lb(&kv),
+        #[cfg(feature = "hook-h6")]
+        Some("pw") => pw::cmd_pw(&kv),
         Some("lockchild") => lock::lockchild_main(&pos[1], &pos[2], &pos[3], &pos[4], &pos[5]),
         Some("iochild") => io::child_main(&pos[1], &pos[2]),
         _ => {
